@@ -138,7 +138,7 @@ C07_PREDS = ["C07_WriteRoute", "C07_StunShapedConsistent", "C07_NoSTUNWrite", "C
 
 def c07(tier, seed):
     w = n(tier, 200, 3000)
-    runs = [dict(cfg=c, traces=w, drain=True, notime=True, preds=C07_PREDS) for c in ("pdata", "pdata21", "pdatanat", "pdatatcp")]
+    runs = [dict(cfg=c, traces=w, drain=True, notime=True, preds=C07_PREDS) for c in ("pdata", "pdata21", "pdatanat", "pdatatcp", "pdatafilter")]
     runs.append(dict(cfg="pdata", traces=n(tier, 100, 1500), preds=C07_PREDS))
     runs[0]["scheds"] = ["c07_reader_falls_behind"]
     runs[1]["scheds"] = ["c07_early_writes_follow_the_valid_set", "c07_early_write_then_restart"]
